@@ -61,6 +61,7 @@ def pRankIn : P RankIn := do
   | "N" => return .none
   | "NAN" => return .nan
   | "I" => return .int (← pInt)
+  | "NI" => return .npInt (← pInt)
   | "F" =>
     let num ← pInt
     let den ← pNat
